@@ -440,7 +440,11 @@ class C15(Check):
                 except BaseException as e:
                     if isinstance(e, (KeyboardInterrupt, SystemExit)): raise
                     obs[stage] = self._exc(stage, e)
-        # the path every handler takes: PacketIn.parsed on an ofp_packet_in carrying the frame
+        # the path every handler takes: PacketIn.parsed on an ofp_packet_in carrying the frame (the same constructor call once more:
+        # done for the fixed corpus and one generated case in four)
+        how = case.get("how", "")
+        if how.startswith(("key", "set", "marks", "splice", "indel", "random", "nest")) and int(case["hex"][-2:] or "0", 16) % 4 != 3:
+            return obs
         try:
             ev = self.PacketIn(self.con, self.ofp_packet_in(data=b, in_port=1))
             q = ev.parsed
@@ -499,7 +503,7 @@ class C15(Check):
     def oracle(self, case, obs):
         if "parse_exc" in obs:
             x = obs["parse_exc"]; return "ethernet(raw) raises %s in %s" % (x["exc"], x["where"])
-        if isinstance(obs["pktin"], dict):
+        if isinstance(obs.get("pktin"), dict):
             x = obs["pktin"]; return "PacketIn.parsed raises %s in %s" % (x["exc"], x["where"])
         sk = obs["skel"]
         for L in sk[:-1]:
@@ -510,8 +514,9 @@ class C15(Check):
                 return "progress: %s has raw/next of type %s/%s" % (L[0], L[2], L[3])
         if sk[-1][0] not in ("none", "bytes"): return "progress: chain ends in %s" % sk[-1][0]
         if obs["slices"]: return "progress: " + obs["slices"]
-        if obs["pktin"] != sk: return "PacketIn.parsed differs from ethernet(raw): %s vs %s" % (obs["pktin"][:3], sk[:3])
-        if not obs.get("pktin_same_object"): return "PacketIn.parsed re-parses on every access"
+        if "pktin" in obs:
+            if obs["pktin"] != sk: return "PacketIn.parsed differs from ethernet(raw): %s vs %s" % (obs["pktin"][:3], sk[:3])
+            if not obs.get("pktin_same_object"): return "PacketIn.parsed re-parses on every access"
         for name, x in sorted(obs.get("handlers", {}).items()):
             return "handler %s raises %s in %s" % (name, x["exc"], x["where"])
         # pack / str / dump.  One registered finding must not hide another failure of the same frame; and a frame whose only failures are
